@@ -113,5 +113,5 @@ MANIFEST = {
             "seems_global_uri (authorities of a client CSR's SIA URIs) has a checked model with seems_global_uri_total. The census "
             "audit found F-C16-5 / F-C16-6 (a handle with a backslash formatted into a URI and unwrapped; replayed on the real "
             "daemon, reported).",
-    "technique": "Lean 4 proof (checked-arithmetic model, totality theorems) + exhaustive finite-domain correspondence + mutation sampling of decoders",
+    "technique": "Lean 4 proof (checked-arithmetic model, totality theorems) + source translator (panic-site census of krill's own code against a hand-reviewed table) + exhaustive finite-domain correspondence + mutation sampling of decoders and of the running daemon",
 }
